@@ -10,7 +10,11 @@ every trainer step.
 Search: (a) code vs the driver's `S` stream — the documented function of the TRUE most-recent spike
 times; (b) cross-implementation differentials on the real code: DelayAdjustedKernelSTDP(D) with the
 shipped exponential kernels vs DelayAdjustedSTDP(D) with the same rates / time constants, and, with all
-delays zero, the delay-adjusted rules vs the unadjusted KernelSTDP (delayed and frozen modes).
+delays zero, the delay-adjusted rules vs the unadjusted KernelSTDP (delayed and frozen modes); (c) configurations:
+per-cell overrides given to register_cell (learning rates of either sign, time constants, batch reduction — the
+constructor arguments are only defaults) and several cells of a multi-connection / multi-group Biclique layer trained
+by one trainer, each cell judged against the `S` stream of its OWN spike trains and effective hyper-parameters (cells
+sharing a connection: the sum of their documented updates).
 """
 from __future__ import annotations
 
